@@ -47,6 +47,10 @@ CHECKS = {
         text="Lean proof composing three models: the generated switch dispatches a message to exactly the handler of its type id and undefined ids only to the not-handled hook (C13_dispatch_exact, C13_undefined_id_not_handled, C13_factory_dispatch), any back-to-back sequence of well-formed messages re-chunked arbitrarily is delivered once, in order, byte-identical (C13_roundtrip_any_chunking, from C14_reassembly), and the retry loop succeeds iff an attempt within retries+1 is accepted, never sends after an accepted attempt, sends nothing for negative retries (C13_retry_success_iff, C13_retry_calls, C13_retry_negative); tied to the code by a compiled loop-back probe over generated transmitter/receiver and IConnection.cpp.",
         ref="DESIGN.md 6/C13", technique="Lean 4 proof (composition of C12/C14 models, induction over the retry loop) + compiled loop-back probe correspondence",
         note="Same trusted base as C12/C14; int8 retry counter range; the user-supplied Preamble() override of the receiver is part of the probe."),
+    "C08": dict(
+        text="Lean proof that the generated process region, for EVERY table, refines the table's reference semantics for every state, event and guard valuation (C08_refines_table: same callbacks in the same order, guards in table order, first row with absent or true guard fires, NoTransition otherwise; C08_sequences: any event sequence with a valuation per event; C08_initial) and that the emitted lines always satisfy CPython's indentation rule, i.e. the module imports (C08_imports); tied to the code by parsing the real generated process region back into the emitter's structure (must equal Model.EmitPy.emit) and by importing and driving the real generated modules through a recording controller.",
+        ref="DESIGN.md 6/C08", technique="Lean 4 proof (refinement of emitted program to table semantics, indentation invariant) + parse-back and behavioural correspondence",
+        note="CPython's execution of if/return/call is assumed to be what the interpreter of Model/EmitPy does; guards pure within one event; names as in the property's domain."),
 }
 PENDING = {}
 
